@@ -395,6 +395,49 @@ def no_identity_cases():
     return out
 
 
+def recertification_cases():
+    """the capability is that of the MOST RECENT self-signature also on a key object that keeps living: an identity is certified again
+    with other flags (the self-signature is attached to the identity: `uid |= key.certify(uid, usage=...)`) after the key has already
+    been used, and the next operation follows the new flags - refusing, falling back to a signing subkey, or signing again"""
+    out = []
+    for alg, with_sub in (('ed25519', False), ('ed25519', True), ('p256', False)):
+        for first, then in ((C | S, C), (C, C | S), (C | S, C | S)):
+            k = tpk.new_key(alg, T0, slot=0)
+            k.add_uid(pgpy.PGPUID.new('U0', email='u0@example.org'), usage=kf(first), created=T0, **PREFSETS[0])
+            subfp = None
+            if with_sub:
+                sk = tpk.new_key('ed25519', T0, slot=1)
+                k.add_subkey(sk, usage=kf(S), created=dt(1))
+                subfp = str(sk.fingerprint)
+            case = {'alg': alg, 'signing_subkey': with_sub, 'first_flags': first, 'then_flags': then, 'form': 'recertified', 'kind': 'recertification', 'enforce': True, 'op': 'sign'}
+            probs = []
+
+            def expect(flags, where):
+                st, val = attempt(lambda: k.sign(TEXT, created=dt(50)))
+                if flags & S:
+                    want = str(k.fingerprint)
+                elif with_sub:
+                    want = subfp
+                else:
+                    want = None
+                if want is None:
+                    if st != 'refused':
+                        probs.append('%s: sign did not refuse with PGPError (%s)' % (where, st))
+                elif st != 'ok':
+                    probs.append('%s: sign raised %s' % (where, str(val)[:60]))
+                elif val.signer.upper() != want.replace(' ', '')[-16:].upper():
+                    probs.append('%s: signed by %s, the component that must be used is %s' % (where, val.signer, want.replace(' ', '')[-16:]))
+            try:
+                expect(first, 'with the first self-signature')
+                uid = k.userids[0]
+                uid |= k.certify(uid, usage=kf(then), created=dt(10), **PREFSETS[0])
+                expect(then, 'after the identity was certified again with other flags')
+            except Exception as ex:
+                probs.append('harness error: %s: %s' % (type(ex).__name__, str(ex)[:80]))
+            out.append({'case': case, 'problem': probs[0] if probs else None, 'nontrivial': True})
+    return out
+
+
 NOSIGN6 = [C, EC, ES, AU, 0, EC | ES]
 
 
@@ -466,6 +509,7 @@ def _worker(args):
                         'nontrivial': False})
     if widx == 0:
         res += no_identity_cases()
+        res += recertification_cases()
     return res
 
 
